@@ -134,7 +134,15 @@ fn case<G: CurveTag>(bytes: &[u8], col: &mut Collector, kmax: usize, force: Opti
         let gens = bp_gens::<G>(n.max(128), 1);
         (gens.G(n, 1).cloned().collect(), gens.H(n, 1).cloned().collect())
     };
-    let Q = rand_point::<G>(seed + 77);
+    // "every base Q": mostly random, now and then the identity or a point tied to the generators
+    let qkind = if seed % 16 < 4 && n > 0 { (seed % 16) as usize } else { 9 };
+    let Q: G = match qkind {
+        0 => G::zero(),
+        1 => Gv[0],
+        2 => (-Hv[0].into_group()).into_affine(),
+        3 => (Gv[n - 1].into_group() + Hv[n - 1].into_group()).into_affine(),
+        _ => rand_point::<G>(seed + 77),
+    };
     // P = <a, g∘G> + <b, h∘H> + <a,b> Q   (own code)
     let mut ip = Fr::<G>::zero();
     let mut Pp = <G as AffineRepr>::Group::zero();
@@ -186,7 +194,7 @@ fn case<G: CurveTag>(bytes: &[u8], col: &mut Collector, kmax: usize, force: Opti
         // negative edits: each must be rejected, and agree with the reference
         let d: Fr<G> = ScalarSpec::gen_nonzero(&mut ch).to_f();
         let edits: Vec<(&str, Box<dyn Fn(&mut Instance<G>, &mut IppMirror<G>) -> bool>)> = vec![
-            ("P+cQ wrong product", Box::new(move |i, _| { i.P = (i.P.into_group() + i.Q.mul_bigint(d.into_bigint())).into_affine(); true })),
+            ("P+cQ wrong product", Box::new(move |i, _| { if i.Q.is_zero() { return false; } i.P = (i.P.into_group() + i.Q.mul_bigint(d.into_bigint())).into_affine(); true })),
             ("P+G_0", Box::new(|i, _| { i.P = (i.P.into_group() + i.Gv[0].into_group()).into_affine(); true })),
             ("P+T small-order", Box::new(|i, _| {
                 // a point of small order (cofactor curves only): r * (some curve point outside the subgroup)
@@ -238,6 +246,9 @@ fn case<G: CurveTag>(bytes: &[u8], col: &mut Collector, kmax: usize, force: Opti
             }
             // a changed factor / product only matters if the touched vector entry is non-zero
             let expect = match *name {
+                // with a base Q that is the identity or tied to the generators other openings of
+                // the same P exist: only the agreement with explicit folding is asserted
+                _ if qkind < 4 => None,
                 "G-factor-changed" if a[n - 1].is_zero() => None,
                 "H-factor-changed" if b[0].is_zero() => None,
                 _ => Some(false),
@@ -249,6 +260,9 @@ fn case<G: CurveTag>(bytes: &[u8], col: &mut Collector, kmax: usize, force: Opti
     }
     col.evals_add(n_edits);
     col.class(&format!("k={}", k));
+    if qkind < 4 {
+        col.class(["Q:identity", "Q:G_0", "Q:-H_0", "Q:G_last+H_last"][qkind]);
+    }
     col.class(["factors:random", "factors:all-one", "factors:powers", "factors:r1cs-like"][fkind]);
     if degenerate {
         col.class("degenerate-round(expected reject)");
